@@ -67,6 +67,7 @@ func checkC15(c *Ctx, r *Report) {
 	checkHintForwarding(c, r) // a CHARACTER_SET decode hint must reach every retry
 	checkQRSegments(c, r)     // Kanji mode (chosen under a Shift_JIS hint): the double-byte arithmetic of writer and reader are inverse
 	checkQRCounts(c, r)       // ... and the character count written for it counts characters, not bytes (also C01)
+	checkQRChooseMode(c, r)   // non-Latin text goes to byte mode (where its character set is written), never to a mode that cannot hold it (also C01)
 	r.Note("not decided: charset guessing over whole texts (only single well-formed multi-byte characters, S-GUESS); per-charset transcoding (golang.org/x/text)")
 }
 
@@ -663,7 +664,7 @@ func checkECIEmission(c *Ctx, r *Report) {
 
 // S-GUESS: text without a hint that is UTF-8 is read as UTF-8
 func checkGuessUTF8(c *Ctx, r *Report) {
-	r.Rule("S-GUESS", "StringUtils_guessCharset, folded from source without hints, answers UTF-8 for every text consisting of one well-formed multi-byte UTF-8 character - every lead byte C2..F4, continuation bytes from the classes 80, 8F, 90, 9F, A0, BF that keep the sequence well formed - alone, between ASCII letters, and repeated: the clause 'without a hint, UTF-8 text decodes as itself' needs at least that (whole texts are beyond a static argument: the guess is a heuristic over byte statistics)", 1)
+	r.Rule("S-GUESS", "StringUtils_guessCharset, folded from source without hints, answers UTF-8 for every text consisting of one well-formed multi-byte UTF-8 character - every lead byte C2..F4, continuation bytes from the classes 80, 8F, 90, 9F, A0, BF that keep the sequence well formed - alone, between ASCII letters, repeated, and (one sequence of each length) at the end of 1530 ASCII bytes - the whole payload is examined: the clause 'without a hint, UTF-8 text decodes as itself' needs at least that (whole texts are beyond a static argument: the guess is a heuristic over byte statistics)", 1)
 	fd, p := c.funcDeclOf("common", "StringUtils_guessCharset")
 	key := "common.StringUtils_guessCharset/utf8"
 	if fd == nil {
@@ -706,10 +707,19 @@ func checkGuessUTF8(c *Ctx, r *Report) {
 	}
 	bad := ""
 	folds := 0
+	longDone := map[int]bool{}
 	for _, sq := range seqs {
-		for variant := 0; variant < 3 && bad == ""; variant++ {
+		nv := 3
+		if !longDone[len(sq)] {
+			// once per sequence length: the character at the very end of a long ASCII text (the whole payload counts)
+			longDone[len(sq)] = true
+			nv = 4
+		}
+		for variant := 0; variant < nv && bad == ""; variant++ {
 			var text []byte
 			switch variant {
+			case 3:
+				text = append([]byte(strings.Repeat("plain ascii text ", 90)), sq...)
 			case 0:
 				text = sq
 			case 1:
@@ -721,7 +731,7 @@ func checkGuessUTF8(c *Ctx, r *Report) {
 			for _, b := range text {
 				lst.L = append(lst.L, &Val{K: VInt, I: int64(b), T: types.Typ[types.Byte]})
 			}
-			h := &rpf{unroll: 1000, env: env}
+			h := &rpf{unroll: 5000, maxSteps: 3000000, env: env}
 			h.selHook = func(rr *rpf, sel *ast.SelectorExpr) (*Val, bool) {
 				if id, ok := sel.X.(*ast.Ident); ok {
 					if pn, isPkg := rr.p.TypesInfo.Uses[id].(*types.PkgName); isPkg && !strings.HasPrefix(pn.Imported().Path(), modPath) {
@@ -744,7 +754,11 @@ func checkGuessUTF8(c *Ctx, r *Report) {
 				if len(res) == 2 && res[0].K == VStr {
 					got = res[0].S
 				}
-				bad = fmt.Sprintf("the bytes % x (the character %q%s) are guessed as %s, not UTF-8", text, string(sq), []string{"", " between ASCII letters", " twice"}[variant], got)
+				show := text
+				if len(show) > 24 {
+					show = show[len(show)-24:]
+				}
+				bad = fmt.Sprintf("the bytes ... % x (the character %q%s) are guessed as %s, not UTF-8", show, string(sq), []string{"", " between ASCII letters", " twice", " at the end of 1530 ASCII bytes"}[variant], got)
 			}
 		}
 		if bad != "" {
